@@ -224,7 +224,51 @@ def check_make_filename(has_name: bool, pre_ctx: int, prefix: int, suffix: int, 
     return h.ok(o.get("prefix", "") == pfx and o.get("suffix", "") == sfx)
 
 
+def check_make_filename_keys(key: int, pre: int, other: int, overwrite: bool, all_three: bool) -> bool:
+    """
+    pre: 0 <= key <= 2
+    pre: 0 <= pre <= 2
+    pre: 0 <= other <= 2
+    post: _
+    """
+    # every name MakeFilename can set (filename, dirname, fileext): an
+    # existing name - also an empty one: dirname "" is the top directory,
+    # fileext "" means no extension - is replaced only with overwrite
+    k = h.choose(["filename", "dirname", "fileext"], key)
+    k2 = h.choose(["fileext", "filename", "dirname"], key)
+    ov = True if overwrite else False
+    out = {}
+    if pre:
+        out[k] = "old" if pre == 1 else ""
+    if other:
+        out[k2] = "keep" if other == 1 else ""
+    ctx = {"output": out, "name": "nm"} if out else {"name": "nm"}
+    snap = copy.deepcopy(ctx)
+    if all_three:
+        el = MakeFilename(filename="new_{{name}}", dirname="new_{{name}}", fileext="new_{{name}}",
+                          overwrite=ov)
+    else:
+        el = MakeFilename(overwrite=ov, **{k: "new_{{name}}"})
+    data, got = el((7, ctx))
+    o = got.get("output", {})
+    want = "new_nm" if (not pre or ov) else ("old" if pre == 1 else "")
+    if data != 7 or o.get(k, None) != want:
+        return h.ok(False)
+    if all_three:
+        want2 = "new_nm" if (not other or ov) else ("keep" if other == 1 else "")
+        return h.ok(o.get(k2, None) == want2 and got.get("name") == "nm")
+    # nothing else is touched
+    rest = dict(o)
+    rest.pop(k, None)
+    rest0 = dict(snap.get("output", {}))
+    rest0.pop(k, None)
+    return h.ok(rest == rest0 and got.get("name") == "nm")
+
+
 CONDITIONS = [
+    dict(fn="check_make_filename_keys", budget=(60, 300),
+         smoke=["check_make_filename_keys(0, 0, 0, False, False)", "check_make_filename_keys(1, 2, 1, False, False)",
+                "check_make_filename_keys(2, 2, 2, False, True)", "check_make_filename_keys(2, 1, 0, True, True)"]),
     dict(fn="check_history", shards=(16, 16), budget=(90, 1500),
          smoke=["check_history(2, 1, False, False, 0, False, False, 0, 0, False)",
                 "check_history(2, 1, True, False, 4, False, False, 0, 0, False)",
